@@ -218,6 +218,7 @@ def run(ctx):
     )
     ctx.assumptions += ["each evaluation runs in a fresh namespace after executing representation.import_statement()", "identical outputs are required only when no rule is disabled (recorded finding: Rule.enabled is not part of Rule.create('...'))", "black is the formatter shipped in /venv"]
     funcs = {"Representation.as_constructor": fl.library.Representation.as_constructor, "Representation.construction_arguments": fl.library.Representation.construction_arguments, "Representation.repr_float": fl.library.Representation.repr_float, "Representation.repr_ndarray": fl.library.Representation.repr_ndarray, "Representation.package_of": fl.library.Representation.package_of, "Representation.import_statement": fl.library.Representation.import_statement, "PythonExporter.encapsulate": fl.PythonExporter.encapsulate}
+    ctx.excuse = lambda mechanism, observed, note: excusable(observed)
     with Reach(funcs) as reach, Probe() as probe:
         mon = PythonMonitor(ctx, fl)
         mon.install(probe)
@@ -247,7 +248,7 @@ def run(ctx):
                     if rnd.random() < 0.15:
                         o["default_value"] = rnd.choice([0.0, -0.0])
                 # "every engine": also those that were not put together with constructors
-                spec["route"] = rnd.choice(["constructors", "constructors", "factories", "fll", "configure", "rule-create-with-engine"])
+                spec["route"] = rnd.choice(["constructors", "constructors", "factories", "fll", "configure", "rule-create-with-engine", "copy-as-is", "deepcopy-as-is"])
                 if spec["route"] == "fll" and any("\n" in x["description"] or "\r" in x["description"] for x in spec["inputs"] + spec["outputs"] + spec["blocks"] + [spec]):
                     spec["route"] = "constructors"  # the FuzzyLite Language has no way to write a line break inside a description
                 try:
@@ -283,7 +284,10 @@ def run(ctx):
                             for formatted in formatted_options:
                                 exporter = fl.PythonExporter(formatted=formatted, encapsulated=encapsulated)
                                 try:
-                                    exporter.to_string(engine)  # judged by the monitor
+                                    # (now and then in a process that is not in its default state: the code is written, and executed
+                                    # by the monitor, with warnings as errors, in debug mode or under other print options)
+                                    with hostile(fl, ENVIRONMENTS[(i // 5) % len(ENVIRONMENTS)] if i % 5 == 2 else None, ctx):
+                                        exporter.to_string(engine)  # judged by the monitor
                                 except Exception:
                                     continue
                                 if mon.last is not None and a == (i % 4) and not formatted:
@@ -318,6 +322,23 @@ def run(ctx):
                     fl.PythonExporter(formatted=False, encapsulated=bool(i % 2)).to_string(term)  # judged by the monitor
                 except Exception:
                     pass
+        # engines that are copies of other engines (used as they come), with terms that read the engine's variables: the code written
+        # for the copy reconstructs the copy
+        for i, rnd in ctx.cases("copies", ctx.scale(24, 500)):
+            with fl.settings.context(decimals=3):
+                spec = E.gen_engine(rnd, activations=("General",), d=3, flags=False, locks=False, kinds=("ts",), max_rules=4, allow_output_antecedent=False)
+                for o in spec["outputs"]:
+                    o["terms"][0] = dict(cls="Function", name=o["terms"][0]["name"], params=[], formula=rnd.choice(E.FORMULAS[:4]), height=1.0)
+                spec["route"] = ["copy-as-is", "deepcopy-as-is"][i % 2]
+                try:
+                    engine = E.build(fl, spec)
+                    fl.PythonExporter(formatted=False, encapsulated=bool(i % 4 // 2)).to_string(engine)  # judged by the monitor
+                except Exception as ex:
+                    ctx.hit(f"inconclusive:copied engine: {type(ex).__name__}: {str(ex)[:60]}")
+                    continue
+                if mon.last is not None:
+                    same_outputs(ctx, fl, rnd, spec, engine, mon.last)
+                ctx.hit("workload:copy of an engine with Function terms exported")
         # components of a user's own classes: subclasses with constructor arguments of their own (defaulted), and distinct classes
         # that carry one and the same name (a class made by a function, a class defined again) with different constructors
         import sys as _sys
@@ -376,6 +397,8 @@ def run(ctx):
             ctx.hit("workload:components of a user's own classes")
         probe.report(ctx)
         reach.report(ctx)
+    ctx.require("workload:copy of an engine with Function terms exported")
+    ctx.require("route:copy-as-is", "route:deepcopy-as-is", *[f"environment:{e}" for e in ENVIRONMENTS])
     ctx.require("workload:components of a user's own classes", "workload:two classes of one name with different constructors", "compare:settings of a reconstructed component")
     ctx.require("workload:a rule was given a text that the parser rejected", "workload:rule weights assigned after the engine was written out", "workload:Discrete term with more than 500 pairs", "component:term built by factory and configure", "compare:dedicated method input_variable", "compare:dedicated method rule_block", "compare:dedicated method term", "compare:dedicated method norm")
     ctx.require("hook:PythonExporter.to_string", "compare:identical outputs", "kind:Engine", "kind:Term", "kind:InputVariable", "kind:OutputVariable", "kind:RuleBlock", "kind:Rule", "kind:Norm", "kind:Defuzzifier", "kind:Activation")
